@@ -19,6 +19,10 @@ def run(ctx):
     cells, table = TR.round_pair_table(rep, F)
     n3 = TR.needs_tz_crosscheck(rep, F, table)
     n4 = S.sticky(rep, F, fns)
+    nkg = roots.kernel_gates(rep, F, r'cbrt')
+    rep.floor('kernel gateways', nkg, 1)
+    npf = exact.pow_fits(ctx)
+    rep.floor('integer powers of ten checked for overflow', npf, 5)
     # scale bookkeeping of the root routine: for every residue of the scale mod 3 the returned integer's
     # dimension (radicand dimension / 3, minus the trimmed digits) equals the scale it is labelled with
     exact.prepare(F)
